@@ -143,7 +143,7 @@ def run(tier):
     run.known.probe()
     common.import_pregex()
     import pregex.meta.essentials as me
-    run.functions = common.src_fingerprint([me.Date.__init__, me.Date._Date__date_pre, me.Date._Date__date_formats])
+    run.functions = common.src_fingerprint(common.resolve([(me.Date, "__init__"), (me.Date, "_Date__date_pre"), (me.Date, "_Date__date_formats")]))
     docf = documented_formats()
     rnd = random.Random(common.SEED)
     tasks = [("task_formats", (k, 16)) for k in range(16)]
